@@ -135,6 +135,14 @@ Example c20_save_nonvacuous :
   = [Loaded D0; Loaded D0; Loaded D0; Loaded D0; Loaded D0; Loaded D0; Loaded D0; Loaded D1; Loaded D1].
 Proof. exact atomic_nonvacuous. Qed.
 
+(* the transition to the empty set (last pairing removed, then saved): [save_complete] with D' = the
+   empty data; the file is replaced, a restart sees nothing - never the removed pairing again *)
+Example c20_save_empty_set :
+  concat [[0%N]] = ToyCodec.print [] /\
+  map (fun n => tload (crash_after n (save_atomic 7%N 2%N 1%N [[0%N]]) st0) 1%N) (seq 0 7)
+  = [Loaded D0; Loaded D0; Loaded D0; Loaded D0; Loaded D0; Loaded []; Loaded []].
+Proof. exact atomic_to_empty. Qed.
+
 Example c20_inplace_all_points :
   map (fun n => tload (crash_after n (save_inplace 7%N 1%N cs1) st0) 1%N) (seq 0 6)
   = [Loaded D0; Broken; Broken; Broken; Loaded D1; Loaded D1].
